@@ -6,6 +6,22 @@ HERE = os.path.dirname(os.path.dirname(os.path.abspath(__file__)))
 TRUST = "Trusted: go/types and go/ssa (x/tools v0.29.0) represent the program faithfully; documented pre/post-conditions of reflect, strings, strconv, regexp, sync, container/list. The check analyses /repo's current source on every run and executes nothing from it; unresolved anchors, unrecognised shapes and analyser panics fail the check."
 
 CLAIMED = {
+ "C04": dict(
+   technique="abstract interpretation of the struct walker (kind-set typestate): descent table, label provenance, guard dominance; call-graph who-may-call (static analysis)",
+   text="Decides the inductive step of nested validation for every kind: which kinds are descended into (once / per element / per map value / not at all), that each nested call is labelled with the very index or iterator key that produced the value, that descents happen only on non-zero, non-time.Time values through exported fields, that time.Time fields are excluded when the type is analysed, that nil sub-objects are skipped silently, and who may call the recursive walker. The recursion is the same function, so the step covers arbitrary depth and width.",
+   ref="DESIGN.md §4 C04"),
+ "C16": dict(
+   technique="abstract interpretation of the walkers and of SetRule: lookup-order facts at every rule call, provenance of the rule string and of the rule set (static analysis)",
+   text="On every path: per-call function table before the global one, error clause and no call on a double miss; a field's rule string is exactly the non-empty programmatic rule or else the tag rule; the unscoped rule set only for the outermost object when no type-scoped set exists; SetRule keys by pointer-stripped type or sentinel.",
+   ref="DESIGN.md §4 C16"),
+ "C17": dict(
+   technique="dependency rule on the group key + provenance of registered members + exhaustive abstract evaluation of either/botheq for group sizes 1..3 (static analysis)",
+   text="The accumulation key depends on object path and rule text and every multi-object walker records its object path, so groups are per object for all object graphs; no ValueOf(reflect.Value) type confusion; either/botheq verdicts are enumerated for sizes 1..3 over every emptiness/equality pattern (all-empty, all-equal, single-member error). Sizes above 3 rest on the loop body not depending on the size.",
+   ref="DESIGN.md §4 C17"),
+ "C18": dict(
+   technique="sibling cross-check of the four walkers on their abstract interpretation + structural URL-splitting hazards (static analysis)",
+   text="All four entry points perform the same steps around the shared rule functions (default split, empty-item skip, parse, lookup by key, nil-means-builtin, zero-skip, call with the unparsed item and the scalar's own Value); URL values keep everything after the first '='. Two listed known findings: whole-URL decoding before splitting (pinned by tests) and interface-typed map values.",
+   ref="DESIGN.md §4 C18"),
  "C02": dict(
    technique="CFG loop-exit discipline of the walkers + path-sensitive abstract interpretation of all rule functions (write counting, clause provenance) + dominance rules on error materialisation (static analysis)",
    text="Decides the reporting machinery structurally for all inputs: no walker loop that can produce a clause has an exit other than its header (never stops at the first failure); every rule function writes at most one constructed, separator-terminated clause per path, naming the field it was called for; getError evaluates groups first, returns nil iff the buffer is empty and trims exactly one separator; every walking path of Valid returns getError. Does not decide that each individual verdict is right (C01/C05/C03).",
